@@ -74,7 +74,11 @@ fn run_case(bytes: &[u8], strip: usize) -> String {
 }
 
 fn emit<W: Write>(out: &mut W, id: usize, bytes: &[u8], strip: usize) {
-    writeln!(out, "U|{}|{}|{}|=>|{}", id, strip, hex(bytes), run_case(bytes, strip)).unwrap();
+    let input = format!("U|{}|{}|{}", id, strip, hex(bytes));
+    crate::watch::begin(input.clone());
+    let res = run_case(bytes, strip);
+    crate::watch::end();
+    writeln!(out, "{}|=>|{}", input, res).unwrap();
 }
 
 const LINES: [&[u8]; 78] = [b"--- a/f\n", b"+++ b/f\n", b"--- /dev/null\n", b"+++ /dev/null\n", b"--- \"a b\"\n", b"+++ \"q\\142\\n\"\n", b"--- a/f\t2020-01-01 00:00\n",
